@@ -284,7 +284,7 @@ def apply(st, deco):
             raise Inadmissible('no card long enough')
         st.cells, st.surfs, st.data = new
     elif deco == 'message':
-        st.title = 'message: outp=deck.o runtpe=deck.r\n\n' + st.title
+        st.title = 'MeSsAgE: outp=deck.o runtpe=deck.r\n\n' + st.title
     else:
         raise ValueError(deco)
     return st
